@@ -711,7 +711,17 @@ pub fn family_from_raw(cfg: FamCfg, us: &[u16], seed: u64) -> FamCase {
     let m = spec.m();
     let s = if u() < 0.4 { 1 } else { 1 + (u() * cfg.max_s as f64) as usize };
     let c_true: Vec<Vec<f64>> = (0..s).map(|_| (0..m).map(|_| (0.5 + 4.5 * u()) * if u() < 0.3 { -1.0 } else { 1.0 }).collect()).collect();
-    let alpha_start: Vec<f64> = alpha_true.iter().map(|a| a * (1.0 + cfg.start_rel * (2.0 * u() - 1.0))).collect();
+    let mut alpha_start: Vec<f64> = alpha_true.iter().map(|a| a * (1.0 + cfg.start_rel * (2.0 * u() - 1.0))).collect();
+    // a location parameter has no scale of its own: "near" means a fraction of the peak's width,
+    // not of the position (3 % of mu = 7 is 40 % of sigma = 0.5 — seen on the unchanged tree: such a
+    // start sends the optimizer into the valley where decay and offset merge)
+    for t in &spec.terms {
+        if matches!(t.kind, Kind::Gauss | Kind::Lorentz) {
+            let (im, iw) = (t.args[0], t.args[1]);
+            let rel = alpha_start[im] / alpha_true[im] - 1.0;
+            alpha_start[im] = alpha_true[im] + rel * alpha_true[iw];
+        }
+    }
     let noiseless = (u() * 16.0) < cfg.noiseless_16 as f64 || cfg.noise_hi == 0.0;
     let flags = (u() * 65536.0) as u32;
     let mrhs = s > 1 || flags & 1 == 1;
